@@ -317,6 +317,10 @@ def gen_field(rng, nf, nd, exact):
     else:
         E = E * rng.choice([1e-3, 1.0, 1.0, 250.0])
         E[E < 1e-6 * (E.max() if E.size else 0)] = 0.0
+    if rng.random() < 0.12:
+        # calm-sea magnitudes (exact power-of-two scaling): the spectrum is far from constant relative to its own size
+        E = E * 2.0 ** -rng.randint(22, 29)
+        kind += ":tiny"
     return E, kind
 
 
@@ -655,7 +659,9 @@ def make_acc_case(inp):
         if ref_t is not None and same_kin and not ws_amb:
             r0 = np.asarray(ref_t.values[(slice(None),) + pos])
             same = same_parts(o, r0, HEADS[method], tol)
-            if not same:
+            if not same and basin_hs_ties(Ev, wclean, freq, dirs):
+                amb += 1  # basins of equal Hs: which of them is kept/dropped depends on float32 summation order
+            elif not same:
                 ofails.append(dict(clause="layout", what=f"{NAMES[method]} on a dataset stored as {list(da.dims)} differs from the result for the "
                                                              f"same labelled values stored as {list(da_std.dims)}",
                                    trigger="noncontiguous_kernel_input" if noncontig else None))
